@@ -6,6 +6,7 @@ import (
 	"context"
 	"time"
 
+	"github.com/couchbase/sync_gateway/base"
 	"github.com/couchbase/sync_gateway/channels"
 )
 
@@ -73,7 +74,8 @@ func vhNewChangeCache(maxPending int) (*changeCache, *vhRecCache, uint64) {
 	vAssume(n >= 2 && n < 1<<62)
 	rec := &vhRecCache{base: n}
 	c := &changeCache{
-		db:              &DatabaseContext{},
+		db: &DatabaseContext{DbStats: &base.DbStats{DatabaseStats: &base.DatabaseStats{
+			DCPCachingCount: &base.SgwIntStat{}, DCPCachingTime: &base.SgwIntStat{}}}},
 		logCtx:          context.Background(),
 		nextSequence:    n,
 		initialSequence: n - 1,
@@ -82,12 +84,53 @@ func vhNewChangeCache(maxPending int) (*changeCache, *vhRecCache, uint64) {
 		channelCache:    rec,
 		options:         CacheOptions{CachePendingSeqMaxNum: maxPending, CachePendingSeqMaxWait: time.Hour},
 	}
+	// age trigger: either every pending entry counts as too old (wait 0) or none ever does (wait 100 years)
+	if vNondetBool() {
+		c.options.CachePendingSeqMaxWait = 0
+	} else {
+		c.options.CachePendingSeqMaxWait = 100 * 365 * 24 * time.Hour
+	}
 	rec.c = c
 	return c, rec, n
 }
 
 // vhCheckBuffer: the buffering invariants over the window.
+// vhCheckNoLoss: the invariants that must survive even inconsistent feeds (repeated unused ranges, ranges that
+// cover waiting changes): an arrived change is cached exactly once as soon as nextSequence has passed it, is
+// otherwise still pending, and a sequence that never arrived is listed as skipped once passed.
+func vhCheckNoLoss(c *changeCache, rec *vhRecCache, n uint64, w int, sent *[vhMaxWin]int, tag string) {
+	vAssert(rec.outside == 0, tag+": nothing outside the fed sequences reaches the channel cache")
+	for o := 0; o < w; o++ {
+		seq := n + uint64(o)
+		vAssert(rec.delivered[o] <= 1, tag+": a sequence is handed to the channel cache at most once")
+		if rec.delivered[o] > 0 {
+			vAssert(sent[o] == 1, tag+": only changes that arrived on the feed are cached")
+		}
+		if sent[o] == 1 {
+			if seq < c.nextSequence {
+				vAssert(rec.delivered[o] == 1, tag+": an arrived change is not lost when nextSequence passes it")
+			} else {
+				held := false
+				for _, p := range c.pendingLogs {
+					if p.Sequence == seq && !p.UnusedSequence {
+						held = true
+					}
+				}
+				vAssert(held, tag+": an arrived change above nextSequence is still pending")
+			}
+		}
+		if sent[o] == 0 && seq < c.nextSequence {
+			vAssert(c.WasSkipped(seq), tag+": a sequence that never arrived is listed as skipped once passed")
+		}
+	}
+}
+
 func vhCheckBuffer(c *changeCache, rec *vhRecCache, n uint64, w int, sent *[vhMaxWin]int, tag string) {
+	overlap := vParam("overlap", 0) == 1
+	if overlap {
+		vhCheckNoLoss(c, rec, n, w, sent, tag)
+		return
+	}
 	vAssert(rec.outside == 0, tag+": nothing outside the fed sequences reaches the channel cache")
 	vAssert(c.nextSequence >= n && c.nextSequence <= n+uint64(w), tag+": nextSequence stays inside the fed window")
 	pending := map[uint64]bool{}
@@ -95,18 +138,29 @@ func vhCheckBuffer(c *changeCache, rec *vhRecCache, n uint64, w int, sent *[vhMa
 		pending[p.Sequence] = true
 		vAssert(p.Sequence >= c.nextSequence, tag+": pending entries are at or above nextSequence")
 	}
-	vAssert(len(c.receivedSeqs) == len(c.pendingLogs), tag+": receivedSeqs tracks exactly the pending entries")
+	// receivedSeqs mirrors the pending single entries (unused ranges are queued without being registered there)
+	singles := 0
+	for _, p := range c.pendingLogs {
+		if !p.IsUnusedRange() {
+			singles++
+			_, ok := c.receivedSeqs[p.Sequence]
+			vAssert(ok, tag+": every pending single entry is registered in receivedSeqs")
+		}
+	}
+	vAssert(len(c.receivedSeqs) == singles, tag+": receivedSeqs holds nothing but the pending single entries")
 	for s := range c.receivedSeqs {
-		vAssert(pending[s], tag+": receivedSeqs tracks exactly the pending entries")
+		vAssert(pending[s], tag+": receivedSeqs holds nothing but the pending single entries")
 	}
 	for o := 0; o < w; o++ {
 		seq := n + uint64(o)
 		vAssert(rec.delivered[o] <= 1, tag+": a sequence is handed to the channel cache at most once")
-		vAssert(!(rec.delivered[o] > 0 && rec.unused[o] > 0), tag+": a sequence is not both a change and unused")
+		if !overlap {
+			vAssert(!(rec.delivered[o] > 0 && rec.unused[o] > 0), tag+": a sequence is not both a change and unused")
+		}
 		if rec.delivered[o] > 0 {
 			vAssert(sent[o] == 1, tag+": only changes that arrived on the feed are cached")
 		}
-		if rec.unused[o] > 0 {
+		if rec.unused[o] > 0 && !overlap {
 			vAssert(sent[o] == 2, tag+": only sequences released on the feed are reported unused")
 		}
 		if seq < c.nextSequence {
@@ -123,7 +177,7 @@ func vhCheckBuffer(c *changeCache, rec *vhRecCache, n uint64, w int, sent *[vhMa
 		} else {
 			vAssert(!c.WasSkipped(seq), tag+": nothing at or above nextSequence is listed as skipped")
 			vAssert(rec.delivered[o] == 0 && rec.unused[o] == 0, tag+": nothing at or above nextSequence has been cached")
-			if sent[o] != 0 {
+			if sent[o] == 1 || (sent[o] == 2 && !overlap) {
 				covered := false
 				for _, p := range c.pendingLogs {
 					end := p.Sequence
@@ -160,22 +214,39 @@ func vhCheckBuffer(c *changeCache, rec *vhRecCache, n uint64, w int, sent *[vhMa
 func VHarness_C08_History() {
 	w := vParam("window", 4)
 	k := vParam("events", 3)
-	c, rec, n := vhNewChangeCache(vNondetRange(0, vParam("maxpending", 1)))
+	maxPending := vParam("fixpending", -1)
+	if maxPending < 0 {
+		maxPending = vNondetRange(0, vParam("maxpending", 1))
+	}
+	c, rec, n := vhNewChangeCache(maxPending)
 	var sent [vhMaxWin]int // 0 not arrived, 1 change, 2 released as unused
 	ctx := context.Background()
 	for e := 0; e < k; e++ {
 		kind := vNondetRange(0, 2)
+		if vParam("overlap", 0) == 1 {
+			vAssume(kind != 1)
+		}
 		o := vNondetRange(0, w-1)
 		seq := n + uint64(o)
 		switch kind {
 		case 0: // document change (a duplicate delivery of an already fed change is allowed: recent_sequences)
-			vAssume(sent[o] != 2) // the allocator never both assigns and releases a number
+			if vParam("overlap", 0) == 1 {
+				// defensive mode: a change may arrive for a sequence inside an unused range that is still waiting
+				vAssume(sent[o] != 2 || seq >= c.nextSequence)
+				// ... but not for the very sequence an unused entry is queued under (processEntry treats that as a
+				// duplicate delivery by design)
+				for _, p := range c.pendingLogs {
+					vAssume(!(p.UnusedSequence && p.Sequence == seq))
+				}
+			} else {
+				vAssume(sent[o] != 2) // the allocator never both assigns and releases a number
+			}
 			sent[o] = 1
-			c.processEntry(ctx, &LogEntry{Sequence: seq, DocID: "doc", RevID: "1-a"})
-		case 1: // unused single sequence
-			vAssume(sent[o] != 1)
+			c.processEntry(ctx, &LogEntry{Sequence: seq, DocID: "doc", RevID: "1-a", TimeReceived: channels.NewFeedTimestampFromNow()})
+		case 1: // unused single sequence (each number is released at most once)
+			vAssume(sent[o] == 0)
 			sent[o] = 2
-			c.releaseUnusedSequence(ctx, seq, 0)
+			c.releaseUnusedSequence(ctx, seq, channels.NewFeedTimestampFromNow())
 		case 2: // unused range [o, o2]
 			o2 := vNondetRange(o, w-1)
 			fresh := true
@@ -184,14 +255,29 @@ func VHarness_C08_History() {
 					fresh = false
 				}
 			}
-			// the allocator releases only numbers it never handed out: a released range is disjoint from everything else fed
-			vAssume(fresh)
-			for i := o; i <= o2; i++ {
-				sent[i] = 2
+			if vParam("overlap", 0) == 0 {
+				// the allocator releases only numbers it never handed out: a released range is disjoint from everything else fed
+				vAssume(fresh)
+			} else {
+				// defensive mode: a (possibly repeated) range may cover changes that are still waiting in the pending
+				// queue; such a change must still be delivered
+				for i := o; i <= o2; i++ {
+					if sent[i] == 1 {
+						vAssume(n+uint64(i) >= c.nextSequence)
+					}
+				}
 			}
-			c.releaseUnusedSequenceRange(ctx, seq, n+uint64(o2), 0)
+			for i := o; i <= o2; i++ {
+				if sent[i] != 1 {
+					sent[i] = 2
+				}
+			}
+			c.releaseUnusedSequenceRange(ctx, seq, n+uint64(o2), channels.NewFeedTimestampFromNow())
 		}
-		vhCheckBuffer(c, rec, n, w, &sent, "after event")
+		if vParam("overlap", 0) == 0 || e == k-1 {
+			// (defensive mode checks once, at the end: a lost change stays lost)
+			vhCheckBuffer(c, rec, n, w, &sent, "after event")
+		}
 	}
 	if len(c.pendingLogs) > 0 {
 		vCover("pending-nonempty")
@@ -199,4 +285,10 @@ func VHarness_C08_History() {
 	if c.skippedSeqs.list.GetLength() > 0 {
 		vCover("skipped-nonempty")
 	}
+}
+
+// VHarness_C08_Overlap: the same history harness in defensive mode (parameter overlap=1): unused ranges may be
+// repeated and may cover changes still waiting in the pending queue; no arrived change may be lost.
+func VHarness_C08_Overlap() {
+	VHarness_C08_History()
 }
